@@ -69,6 +69,8 @@ type modelState struct {
 	fpOpaque       map[int]bool
 	hmsOf          map[[3]int]*smt.Term
 	hmsB           *smt.Builder
+	ymdMemo        map[int]ymdEntry
+	usMemo         map[int]TimeV
 	civilMemo      map[int][3]*smt.Term
 	pureMemo       map[*ssa.BasicBlock]bool
 	IfConverted    int
@@ -84,6 +86,8 @@ func (ex *Exec) modelReset() {
 	ex.civilSeq = 0
 	ex.splitCalendar = false
 	ex.exactFloat = false
+	ex.ymdMemo = nil
+	ex.usMemo = nil
 	ex.civilMemo = nil
 }
 
